@@ -73,7 +73,7 @@ let fspoll_case (fx : bool) (line : string) : string =
          | EPoll (h, cb, _, st, prev, curr) ->
              Buffer.add_string buf (Printf.sprintf "p%d,%d,%s,%s,%s" (int_of_nat h) (int_of_nat cb)
                                       (string_of_z st) (sb_str prev) (sb_str curr))
-         | EClosed h -> Buffer.add_string buf (Printf.sprintf "x%d" (int_of_nat h))
+         | EClosed (h, _) -> Buffer.add_string buf (Printf.sprintf "x%d" (int_of_nat h))
          | EStat p -> Buffer.add_string buf (Printf.sprintf "s%d" (int_of_nat p))
          | EIter -> Buffer.add_char buf 'g'
          | EObs l ->
@@ -125,7 +125,7 @@ let fsevent_case (line : string) : string =
       List.iter (fun e ->
         (match e with
          | IRet c -> Buffer.add_string buf ("r" ^ string_of_z c)
-         | ICb (h, cb, nm, bits) ->
+         | ICb (h, cb, nm, bits, _) ->
              Buffer.add_string buf (Printf.sprintf "c%d,%d,%d,%s" (int_of_nat h) (int_of_nat cb)
                                       (int_of_nat nm) (string_of_z bits))
          | IRm wd -> Buffer.add_string buf ("m" ^ string_of_z wd)
